@@ -472,6 +472,34 @@ func procConcChild(sc *procScenario, w *procWorld) {
 				return
 			}
 			mo.Created = true
+			if sc.Once {
+				// MEASUREMENT (no oracle): every unit exactly once, each from a goroutine of its own, all
+				// at the same moment — what a full-mesh broadcast looks like to the receiver
+				res := make([]string, total)
+				var wg2 sync.WaitGroup
+				go2 := make(chan struct{})
+				for i := 0; i < total; i++ {
+					wg2.Add(1)
+					go func(i int) {
+						defer wg2.Done()
+						u := cloneUnit(&units[i])
+						sender, _ := legitSender(w.sched, w.local.id, pub.id, i)
+						<-go2
+						if err := p.ProcessMessage(ctx, u, sender, w.procSched); err == nil {
+							res[i] = "nil"
+						} else if strings.Contains(err.Error(), "processor channel full") {
+							res[i] = "full"
+						} else {
+							res[i] = "err:" + err.Error()
+						}
+					}(i)
+				}
+				close(go2)
+				wg2.Wait()
+				mo.Results = res
+				msgs[m] = mo
+				return
+			}
 			for x := 0; x < total; x++ {
 				i := (x + m) % total
 				u := cloneUnit(&units[i])
@@ -630,6 +658,48 @@ func concProcEval(h *hctx, sc *procScenario, pr procRun, race bool) {
 	}
 }
 
+// concOnceMeasure — a MEASUREMENT, not an oracle (the outcome depends on the interleaving): all N-1 honest
+// units of a new message are handed over exactly once, at the same moment, from N-1 goroutines (what the
+// engine's stream handlers do when the committee broadcasts). ProcessMessage is non-blocking by design:
+// a unit that arrives while the message's subprocessor validates another one is dropped ("processor
+// channel full"). How many units get through, and is the message built? Reported in the distribution.
+func concOnceMeasure(h *hctx) {
+	var scs []*procScenario
+	for _, n := range []int{4, 7, 10, 13} {
+		sc := &procScenario{N: n, Local: 0, Pub: 1, Msg: hx(genMsg(lib.NewRNG(uint64(n)), 40)), Nonce: "1758700000000000000", Conc: 4, Once: true}
+		scs = append(scs, sc)
+	}
+	runs := runProcChildren(scs)
+	for i, pr := range runs {
+		cl, ok := parseConcLine(pr)
+		if pr.machinery != "" || pr.crashed || !ok {
+			continue // (crashes are reported by the scenarios with retries)
+		}
+		byUnit := map[string]int{}
+		for _, e := range cl.Events {
+			byUnit[e.Unit]++
+		}
+		for _, m := range cl.Msgs {
+			taken := 0
+			for _, r := range m.Results {
+				if r == "nil" {
+					taken++
+				}
+			}
+			k := max(1, (scs[i].N-1)/3)
+			h.res.HitN(fmt.Sprintf("conc-once(measurement):n=%d:units-offered", scs[i].N), len(m.Results))
+			h.res.HitN(fmt.Sprintf("conc-once(measurement):n=%d:units-taken", scs[i].N), taken)
+			if byUnit[m.Want] > 0 {
+				h.res.Hit(fmt.Sprintf("conc-once(measurement):n=%d:message-built", scs[i].N))
+			} else if taken < k {
+				h.res.Hit(fmt.Sprintf("conc-once(measurement):n=%d:message-NOT-built(fewer-than-k-units-taken)", scs[i].N))
+			} else {
+				h.res.Hit(fmt.Sprintf("conc-once(measurement):n=%d:message-NOT-built", scs[i].N))
+			}
+		}
+	}
+}
+
 // secConcurrent: both levels (quick and thorough), plus the race twins (thorough).
 func secConcurrent(h *hctx, r *lib.RNG) {
 	par := concParams{Goroutines: h.f.Scale(8, 16), Rounds: h.f.Scale(300, 1500), Seed: r.Uint64() >> 8}
@@ -642,6 +712,7 @@ func secConcurrent(h *hctx, r *lib.RNG) {
 	for i := range scs {
 		concProcEval(h, scs[i], runs[i], false)
 	}
+	concOnceMeasure(h)
 	if h.f.Thorough() {
 		concRace(h, scs)
 	}
